@@ -454,9 +454,11 @@ func VerifyFunc(w *World, fi *FuncInfo) (res *FuncResult) {
 		}
 	}
 	// facts and axioms travel with the obligations
+	axioms := x.packageAxioms()
 	for _, o := range x.obls {
 		o.Facts = x.facts
 		o.Inputs = x.inputs
+		o.Axioms = axioms
 	}
 	res.Obls = x.obls
 	for wmsg := range x.warnings {
@@ -529,4 +531,55 @@ func (x *Exec) frameObligations(fr *Frame, out, entry *State, sp *FuncSpec) {
 		}
 		x.oblige(out, "frame", k[2:], tags, valueEq(was, now), fr.fi.Decl.Body.Rbrace, "modifies clause of "+fr.fi.Key)
 	}
+}
+
+// VerifyLemmas turns each closed lemma of a package into an obligation.
+func VerifyLemmas(w *World, pi *PkgInfo) ([]*Obligation, error) {
+	var out []*Obligation
+	for _, l := range pi.Contracts.Lemmas {
+		var err error
+		func() {
+			defer func() {
+				if r := recover(); r != nil {
+					if ee, ok := r.(*EngineError); ok {
+						err = fmt.Errorf("lemma %s: %s", l.Name, ee.Msg)
+						return
+					}
+					panic(r)
+				}
+			}()
+			x := newExec(w, pi, &FuncInfo{Pkg: pi, Key: "lemma"})
+			st := newState()
+			vars := map[string]Value{}
+			var inputs []*Term
+			for _, p := range l.Params {
+				t := Var("lemma."+l.Name+"."+p, SInt)
+				vars[p] = Scalar(t, types.Typ[types.Int])
+				inputs = append(inputs, t)
+			}
+			c := &Ctx{x: x, st: st, pkg: pi}
+			g := c.specEval(l.Body, st, st, vars)
+			o := &Obligation{Name: pi.Name + ".lemma/" + l.Name, Kind: "lemma", Tags: l.Tags, Func: "lemma " + l.Name, Pkg: pi.Name,
+				Pos: fmt.Sprintf("contracts:%d", l.Line), Clause: l.Text, Goal: g, Facts: x.facts, Inputs: inputs}
+			out = append(out, o)
+		}()
+		if err != nil {
+			return nil, err
+		}
+	}
+	return out, nil
+}
+
+// packageAxioms evaluates the axioms of the package under verification (state-independent).
+func (x *Exec) packageAxioms() []*Term {
+	var out []*Term
+	st := newState()
+	c := &Ctx{x: x, st: st, pkg: x.pkg}
+	for _, a := range x.contracts().Axioms {
+		out = append(out, c.specEval(a.Body, st, st, nil))
+	}
+	for _, n := range sortedKeys(x.ufRange) {
+		out = append(out, x.ufRange[n])
+	}
+	return out
 }
